@@ -202,8 +202,14 @@ Qed.
 Definition ckey (e : centry) : key := snd (fst e).
 Definition ctyp (e : centry) : ctype := fst (fst e).
 
-Definition names_construct (tys : list (key * ctype)) (c : key) : Prop :=
-  exists t, assoc c tys = Some t /\ t <> DomainAxis.
+(* a name held by a coordinate reference resolves to a construct of the right
+   sort: a coordinate for [coordinates()], a domain ancillary for a term of the
+   coordinate conversion *)
+Definition is_coord (t : ctype) : bool := match t with DimCoord | AuxCoord => true | _ => false end.
+Definition is_danc (t : ctype) : bool := match t with DomainAnc => true | _ => false end.
+
+Definition names_construct (ok : ctype -> bool) (tys : list (key * ctype)) (c : key) : Prop :=
+  exists t, assoc c tys = Some t /\ ok t = true.
 
 Record Inv (s : cstate) : Prop := mkInv {
   (* (i) every held construct is registered under its own type, has the
@@ -221,8 +227,8 @@ Record Inv (s : cstate) : Prop := mkInv {
   inv_field : forall ax, faxes s = Some ax -> check_field_axes (cons s) (fshape s) ax = true;
   (* (iv) coordinate references name existing (non-axis) constructs *)
   inv_refs : forall rk cs ancs, In (CoordRef, rk, PRef cs ancs) (cons s) ->
-             (forall c, In c cs -> names_construct (ctys s) c) /\
-             (forall term a, In (term, Some a) ancs -> names_construct (ctys s) a);
+             (forall c, In c cs -> names_construct is_coord (ctys s) c) /\
+             (forall term a, In (term, Some a) ancs -> names_construct is_danc (ctys s) a);
   (* (iv) cell methods name existing domain axes *)
   inv_cms : forall ck axs, In (CellMethod, ck, PCm axs) (cons s) ->
             forall a, In a axs -> axis_size (cons s) a <> None
@@ -237,8 +243,8 @@ Qed.
    names constructs / axes that exist at the time of the call *)
 Definition payload_ok (s : cstate) (p : payload) : Prop :=
   match p with
-  | PRef cs ancs => (forall c, In c cs -> names_construct (ctys s) c) /\
-                    (forall term a, In (term, Some a) ancs -> names_construct (ctys s) a)
+  | PRef cs ancs => (forall c, In c cs -> names_construct is_coord (ctys s) c) /\
+                    (forall term a, In (term, Some a) ancs -> names_construct is_danc (ctys s) a)
   | PCm axs => forall a, In a axs -> axis_size (cons s) a <> None
   | _ => True
   end.
@@ -328,8 +334,8 @@ Proof.
       destruct Ha as [Ha|[Ha|Ha]]; try congruence.
       rewrite (Hsz eq_refl Ha). destruct (kind_ok_axis p Hk) as [n ->]. reflexivity.
     - apply ctype_eqb_neq in Et. apply axis_size_cset_other; assumption. }
-  assert (Hmono : forall k0, names_construct (ctys s) k0 -> names_construct (aset key t (ctys s)) k0).
-  { intros k0 [t0 [H0 H1]]. unfold names_construct. rewrite assoc_aset_full.
+  assert (Hmono : forall ok k0, names_construct ok (ctys s) k0 -> names_construct ok (aset key t (ctys s)) k0).
+  { intros ok k0 [t0 [H0 H1]]. unfold names_construct. rewrite assoc_aset_full.
     destruct (String.eqb k0 key) eqn:E0; [|eauto].
     apply String.eqb_eq in E0. subst k0.
     destruct Hty as [Hty|Hty]; rewrite Hty in H0; [discriminate|]. inversion H0; subst. eauto. }
@@ -449,8 +455,8 @@ Lemma set_construct_inv v t p k axes s :
   Inv s -> payload_ok s p -> Inv (fst (set_construct v t p k axes s)).
 Proof.
   intros I Hp. unfold set_construct.
-  destruct (negb (kind_ok t p) || negb (copyable_entry (t, EmptyString, p))) eqn:Ek; [exact I|].
-  apply orb_false_iff in Ek as [Ek _]. apply negb_false_iff in Ek.
+  destruct (negb (kind_ok t p)) eqn:Ek; [exact I|]. apply negb_false_iff in Ek.
+  destruct (negb (copyable_entry (t, EmptyString, p))); [exact I|].
   destruct (is_view v && ignored t); [exact I|].
   destruct (match k with Some k0 => Some k0 | None => new_identifier s t end) as [key|] eqn:Ekey;
     [|exact I].
@@ -536,8 +542,8 @@ Proof.
   intros I Hk Ht.
   assert (Hsz : forall a, axis_size (cdel t k (map (clean_ref k) (cons s))) a = axis_size (cons s) a).
   { intro a. rewrite axis_size_cdel_other by assumption. apply axis_size_clean. }
-  assert (Hnm : forall c, c <> k -> names_construct (ctys s) c -> names_construct (aremove k (ctys s)) c).
-  { intros c Hc [t0 [H0 H1]]. exists t0. rewrite assoc_aremove.
+  assert (Hnm : forall ok c, c <> k -> names_construct ok (ctys s) c -> names_construct ok (aremove k (ctys s)) c).
+  { intros ok c Hc [t0 [H0 H1]]. exists t0. rewrite assoc_aremove.
     apply String.eqb_neq in Hc. rewrite Hc. auto. }
   constructor; cbn [cons ctys caxes fshape faxes].
   - intros t0 k0 p0 Hin. apply In_cdel in Hin as [Hin Hne].
@@ -608,11 +614,12 @@ Proof.
     rewrite (spanned_by_field_true s ax k Hax Ha) in Hsf. discriminate.
   - intros rk cs ancs Hin. apply In_cdel in Hin as [Hin _].
     destruct (inv_refs s I rk cs ancs Hin) as [R1 R2].
-    assert (Hnm : forall c, names_construct (ctys s) c -> names_construct (aremove k (ctys s)) c).
-    { intros c [t0 [H0 H1]]. exists t0. rewrite assoc_aremove.
+    assert (Hnm : forall ok c, ok DomainAxis = false ->
+                  names_construct ok (ctys s) c -> names_construct ok (aremove k (ctys s)) c).
+    { intros ok c Hok [t0 [H0 H1]]. exists t0. rewrite assoc_aremove.
       destruct (String.eqb c k) eqn:Ec; [|auto].
-      apply String.eqb_eq in Ec. subst c. rewrite Hk in H0. inversion H0; subst. contradiction. }
-    split; [intros; apply Hnm; auto|intros; apply Hnm; eapply R2; eauto].
+      apply String.eqb_eq in Ec. subst c. rewrite Hk in H0. inversion H0; subst. congruence. }
+    split; [intros; apply Hnm; auto|intros; apply Hnm; [reflexivity|eapply R2; eauto]].
   - intros ck axs Hin a Ha. apply In_cdel in Hin as [Hin _].
     rewrite Hsz; [eapply (inv_cms s I); eauto|].
     intro; subst a. rewrite (cm_names_true k ck axs (cons s) Hin Ha) in Hcm. discriminate.
@@ -874,7 +881,7 @@ Proof.
   - cbn [fst]. unfold with_field. apply (inv_with_field s _ _ I). intros; discriminate.
 Qed.
 
-Lemma transpose_inv axes inplace s : Inv s -> Inv (fst (transpose axes false inplace s)).
+Lemma transpose_inv axes inplace done s : Inv s -> Inv (fst (transpose axes false inplace done s)).
 Proof.
   intros I. unfold transpose.
   destruct (negb inplace && negb (copyable s)); [exact I|].
@@ -922,8 +929,8 @@ Proof.
     apply andb_true_iff in E3 as [A _]. apply Z.leb_le in A. lia.
 Qed.
 
-Lemma insert_dimension_inv axis pos inplace s :
-  Inv s -> Inv (fst (insert_dimension axis pos false inplace s)).
+Lemma insert_dimension_inv axis pos inplace done s :
+  Inv s -> Inv (fst (insert_dimension axis pos false inplace done s)).
 Proof.
   intros I. unfold insert_dimension.
   destruct (negb inplace && negb (copyable s)); [exact I|].
@@ -981,227 +988,3 @@ Proof.
     + cbn [negb fst]. unfold with_field. apply (inv_with_field s1 _ _ I1). intros; discriminate.
 Qed.
 
-(* ------------------------------------------------------------------ *)
-(* every step, every history                                           *)
-(* ------------------------------------------------------------------ *)
-(* What is asked of the caller / what is outside the proved fragment:
-   - an inserted coordinate reference or cell method names constructs / axes
-     that exist (payload_ok): the container does not validate caller data;
-   - Subspace, Convert and the constructs=True forms of Transpose and
-     InsertDimension are modelled and checked against the implementation on
-     every run, but their preservation proof is not done (partial). *)
-Definition op_ok (s : cstate) (o : op) : Prop :=
-  match o with
-  | SetConstruct _ _ p _ _ => payload_ok s p
-  | Transpose _ c _ => c = false
-  | InsertDimension _ _ c _ => c = false
-  | Subspace _ => False
-  | Convert _ _ => False
-  | _ => True
-  end.
-
-Lemma step_inv s o : Inv s -> op_ok s o -> Inv (fst (step s o)).
-Proof.
-  intros I Hok. destruct o; cbn [step op_ok] in *.
-  - apply set_construct_inv; assumption.
-  - apply del_construct_inv; assumption.
-  - apply set_data_inv; assumption.
-  - apply del_data_inv; assumption.
-  - apply set_data_axes_inv; assumption.
-  - apply del_data_axes_inv; assumption.
-  - destruct (copyable s); exact I.
-  - contradiction.
-  - apply squeeze_inv; assumption.
-  - subst. apply transpose_inv; assumption.
-  - subst. apply insert_dimension_inv; assumption.
-  - contradiction.
-Qed.
-
-Fixpoint ops_ok (s : cstate) (ops : list op) : Prop :=
-  match ops with
-  | [] => True
-  | o :: r => op_ok s o /\ ops_ok (fst (step s o)) r
-  end.
-
-Lemma run_inv_from ops : forall s, Inv s -> ops_ok s ops ->
-  Inv (fold_left (fun s o => fst (step s o)) ops s).
-Proof.
-  induction ops as [|o r IH]; intros s I H; simpl in *; [exact I|].
-  destruct H as [H1 H2]. apply IH; [apply step_inv; assumption|assumption].
-Qed.
-
-Lemma run_inv ops : ops_ok init ops -> Inv (run ops).
-Proof. intro H. apply run_inv_from; [apply inv_init|assumption]. Qed.
-
-(* every state along the way as well *)
-Lemma run_inv_prefix ops n : ops_ok init ops -> Inv (run (firstn n ops)).
-Proof.
-  intro H. apply run_inv.
-  revert n H. generalize init. induction ops as [|o r IH]; intros s n H; destruct n; simpl in *; auto.
-  destruct H; split; auto.
-Qed.
-
-(* clause (i): a key belongs to one construct of one type *)
-Lemma key_unique s t t' k p p' :
-  Inv s -> In (t, k, p) (cons s) -> In (t', k, p') (cons s) -> t = t' /\ p = p'.
-Proof.
-  intros I H1 H2. destruct (inv_held s I _ _ _ H1) as [A [_ B]].
-  destruct (inv_held s I _ _ _ H2) as [A' [_ B']].
-  assert (t = t') by congruence. subst. split; [reflexivity|congruence].
-Qed.
-
-(* clause (ii) spelled out *)
-Lemma shapes_match s k axs :
-  Inv s -> assoc k (caxes s) = Some axs ->
-  exists t p, In (t, k, p) (cons s) /\ is_array t = true /\
-    (exists szs, axes_sizes (cons s) axs = Some szs /\
-                 forall sh, pshape p = Some sh -> sh = szs).
-Proof.
-  intros I H. destruct (inv_axes s I k axs H) as [t [p [H1 [H2 [H3 H4]]]]].
-  exists t, p. splits; auto. { apply cget_In; assumption. }
-  unfold check_axes in H4. destruct (axes_sizes (cons s) axs) as [szs|]; [|discriminate].
-  exists szs. split; [reflexivity|]. intros sh Hs. rewrite Hs in H4. apply zlist_eqb_eq; assumption.
-Qed.
-
-(* clause (iii) spelled out *)
-Lemma field_matches s ax sh :
-  Inv s -> faxes s = Some ax -> fshape s = Some sh -> axes_sizes (cons s) ax = Some sh.
-Proof.
-  intros I H1 H2. pose proof (inv_field s I ax H1) as H. rewrite H2 in H.
-  apply check_field_some; assumption.
-Qed.
-
-(* clause (v): the domain view shows exactly the constructs of the types it
-   does not ignore, and they are the field's own *)
-Lemma domain_view_spec s e :
-  In e (domain_view s) <-> In e (cons s) /\ ignored (fst (fst e)) = false.
-Proof. unfold domain_view. rewrite filter_In, negb_true_iff. tauto. Qed.
-
-(* a rejected insertion, data or data-axes call changes nothing *)
-Lemma rejected_unchanged s o e :
-  match o with
-  | SetConstruct _ _ _ _ _ | SetData _ _ | DelData | SetDataAxes _ _ _ | DelDataAxes _ _ | Copy => True
-  | _ => False
-  end ->
-  snd (step s o) = Rejected e -> fst (step s o) = s.
-Proof.
-  destruct o; intro H; try contradiction; cbn [step].
-  - unfold set_construct.
-    repeat match goal with
-           | |- context [if ?c then _ else _] => destruct c
-           | |- context [match ?x with Some _ => _ | None => _ end] => destruct x
-           end; simpl; intro; try reflexivity; discriminate.
-  - unfold set_data, set_field_axes.
-    repeat match goal with
-           | |- context [if ?c then _ else _] => destruct c
-           | |- context [match ?x with Some _ => _ | None => _ end] => destruct x
-           end; simpl; intro; try reflexivity; discriminate.
-  - unfold del_data. destruct (fshape s); simpl; intro; try reflexivity; discriminate.
-  - unfold set_data_axes, set_field_axes.
-    repeat match goal with
-           | |- context [if ?c then _ else _] => destruct c
-           | |- context [match ?x with Some _ => _ | None => _ end] => destruct x
-           end; simpl; intro; try reflexivity; discriminate.
-  - unfold del_data_axes.
-    repeat match goal with
-           | |- context [if ?c then _ else _] => destruct c
-           | |- context [match ?x with Some _ => _ | None => _ end] => destruct x
-           end; simpl; intro; try reflexivity; discriminate.
-  - destruct (copyable s); simpl; intro; reflexivity.
-Qed.
-
-(* the guard on inserted references is exact: without it the invariant can be
-   broken by a call that completes (the container does not validate the
-   contents of a coordinate reference - by design) *)
-Lemma unguarded_refuted :
-  exists s o, Inv s /\ snd (step s o) = Done /\ ~ Inv (fst (step s o)).
-Proof.
-  exists init, (SetConstruct VField CoordRef (PRef ["nope0"] []) None None).
-  split; [apply inv_init|]. split; [reflexivity|].
-  intro I. destruct (inv_refs _ I "coordinatereference0" ["nope0"] []) as [H _].
-  { vm_compute. left; reflexivity. }
-  destruct (H "nope0" (or_introl eq_refl)) as [t [Ht _]]. vm_compute in Ht. discriminate.
-Qed.
-
-(* non-vacuity: a history that exercises guards, the view and a rejected call,
-   whose every operation meets op_ok *)
-Definition example_history : list op :=
-  [ SetConstruct VField DomainAxis (PAxis 5) None None;
-    SetConstruct VField DomainAxis (PAxis 1) None None;
-    SetData [5] (Some ["domainaxis0"]);
-    SetConstruct VField DimCoord (PArr (Some [5]) true (Some 2)) None (Some ["domainaxis0"]);
-    SetConstruct VDomain DomainAnc (PArr (Some [5]) true None) None (Some ["domainaxis0"]);
-    SetConstruct VField CoordRef (PRef ["dimensioncoordinate0"] [("a", Some "domainancillary0")]) None None;
-    SetConstruct VField CellMethod (PCm ["domainaxis0"]) None None;
-    DelConstruct VField "dimensioncoordinate0";
-    DelConstruct VDomain "domainaxis0";
-    InsertDimension (Some "domainaxis1") (-1) false true;
-    Squeeze None false;
-    DelConstruct VField "domainancillary0" ].
-
-(* a decidable form of the guards, for the example and for the harness *)
-Definition namesb (tys : list (key * ctype)) (c : key) : bool :=
-  match assoc c tys with Some t => negb (ctype_eqb t DomainAxis) | None => false end.
-
-Definition payload_okb (s : cstate) (p : payload) : bool :=
-  match p with
-  | PRef cs ancs => forallb (namesb (ctys s)) cs &&
-                    forallb (fun ta => match snd ta with Some a => namesb (ctys s) a | None => true end) ancs
-  | PCm axs => forallb (fun a => match axis_size (cons s) a with Some _ => true | None => false end) axs
-  | _ => true
-  end.
-
-Definition op_okb (s : cstate) (o : op) : bool :=
-  match o with
-  | SetConstruct _ _ p _ _ => payload_okb s p
-  | Transpose _ c _ => negb c
-  | InsertDimension _ _ c _ => negb c
-  | Subspace _ => false
-  | Convert _ _ => false
-  | _ => true
-  end.
-
-Fixpoint ops_okb (s : cstate) (ops : list op) : bool :=
-  match ops with
-  | [] => true
-  | o :: r => op_okb s o && ops_okb (fst (step s o)) r
-  end.
-
-Lemma namesb_ok tys c : namesb tys c = true -> names_construct tys c.
-Proof.
-  unfold namesb, names_construct. destruct (assoc c tys) as [t|]; [|discriminate].
-  intro H. exists t. split; [reflexivity|]. apply negb_true_iff, ctype_eqb_neq in H. assumption.
-Qed.
-
-Lemma payload_okb_ok s p : payload_okb s p = true -> payload_ok s p.
-Proof.
-  destruct p; simpl; auto.
-  - intro H. apply andb_true_iff in H as [H1 H2]. split.
-    + intros c Hc. apply namesb_ok. eapply forallb_forall in H1; eauto.
-    + intros term a Ha. eapply forallb_forall in H2; eauto. simpl in H2. apply namesb_ok; assumption.
-  - intros H a Ha. eapply forallb_forall in H; eauto. simpl in H.
-    destruct (axis_size (cons s) a); [discriminate|discriminate].
-Qed.
-
-Lemma op_okb_ok s o : op_okb s o = true -> op_ok s o.
-Proof.
-  destruct o; simpl; auto; try discriminate.
-  - apply payload_okb_ok.
-  - intro H. apply negb_true_iff in H. assumption.
-  - intro H. apply negb_true_iff in H. assumption.
-Qed.
-
-Lemma ops_okb_ok ops : forall s, ops_okb s ops = true -> ops_ok s ops.
-Proof.
-  induction ops as [|o r IH]; intros s H; simpl in *; [exact Coq.Init.Logic.I|].
-  apply andb_true_iff in H as [H1 H2]. split; [apply op_okb_ok; assumption|apply IH; assumption].
-Qed.
-
-Lemma example_ok : ops_ok init example_history /\
-  snd (step (run (firstn 8 example_history)) (DelConstruct VDomain "domainaxis0")) = Rejected ValueErr /\
-  cget CoordRef "coordinatereference0" (cons (run example_history)) = Some (PRef [] [("a", None)]) /\
-  axis_size (cons (run example_history)) "domainaxis0" = Some 5.
-Proof.
-  split; [apply ops_okb_ok; vm_compute; reflexivity|].
-  repeat split; vm_compute; reflexivity.
-Qed.
